@@ -133,6 +133,7 @@ func (s *System) Tick(t int64) {
 	// add background coroutines
 	for _, bg := range s.background {
 		if !s.api.Done() && (t-bg.last) >= int64(s.config.SignalTimeout.Milliseconds()) && (bg.promise == nil || bg.promise.Completed()) {
+			last := bg.last
 			bg.last = t
 
 			tags := map[string]string{
@@ -145,6 +146,11 @@ func (s *System) Tick(t int64) {
 				s.coroutineMetrics(p, tags)
 			} else {
 				slog.Warn("scheduler queue full", "size", s.config.CoroutineMaxSize)
+
+				// the coroutine did not start, it stays due so that it is tried again
+				// on the next tick; otherwise a small coroutine-max-size starves the
+				// background coroutines that are registered last forever
+				bg.last = last
 			}
 		}
 	}
